@@ -327,6 +327,51 @@ func C03(p *load.Prog, r *oblig.Run) {
 					bad = "Decode returns the bare parse error without the line number at " + p.Pos(ret.Pos())
 					continue
 				}
+				// through a formatting helper of the library: lineError(lineNumber, err) whose own return is fmt.Errorf
+				// over both parameters
+				if hc, ok := ev.(*ssa.Call); ok {
+					if h := hc.Call.StaticCallee(); h != nil && p.InRepo(h) && len(h.Blocks) > 0 && !su.CalleeIs(&hc.Call, "fmt", "Errorf") {
+						passesErr, passesInt := false, false
+						for _, a := range hc.Call.Args {
+							v := su.Strip(a)
+							if v == errV {
+								passesErr = true
+							}
+							if bt, isB := v.Type().Underlying().(*types.Basic); isB && bt.Info()&types.IsInteger != 0 {
+								if _, isK := v.(*ssa.Const); !isK {
+									passesInt = true
+								}
+							}
+						}
+						formats := false
+						for _, hb := range h.Blocks {
+							hr, isRet := hb.Instrs[len(hb.Instrs)-1].(*ssa.Return)
+							if !isRet || len(hr.Results) != 1 {
+								continue
+							}
+							if fc, isC := hr.Results[0].(*ssa.Call); isC && su.CalleeIs(&fc.Call, "fmt", "Errorf") {
+								deps := map[*ssa.Parameter]bool{}
+								paramDeps(fc, deps, map[ssa.Value]bool{})
+								nInt, nErr := 0, 0
+								for q := range deps {
+									if bt, isB := q.Type().Underlying().(*types.Basic); isB && bt.Info()&types.IsInteger != 0 {
+										nInt++
+									} else {
+										nErr++
+									}
+								}
+								formats = nInt > 0 && nErr > 0
+							}
+						}
+						if passesErr && passesInt && formats {
+							good++
+							continue
+						} else if passesErr {
+							bad = "the parse error is wrapped by " + load.FuncName(h) + " without the line counter at " + p.Pos(hc.Pos())
+							continue
+						}
+					}
+				}
 				if call, ok := ev.(*ssa.Call); ok && su.CalleeIs(&call.Call, "fmt", "Errorf") {
 					usesErr, usesInt := false, false
 					if sl, ok := call.Call.Args[1].(*ssa.Slice); ok {
